@@ -659,6 +659,10 @@ func randTx(r *xvlib.Rng, ver int32) *pb.Transaction {
 		if r.Chance(1, 4) {
 			return nil
 		}
+		if r.Chance(1, 6) {
+			// long fields, around the sizes where an encoder's scratch buffers end (wave 7, seed C07-16)
+			return randBytes(r, []int{55, 56, 57, 58, 63, 64, 65, 127, 128, 129, 255, 256, 257}[r.Intn(13)])
+		}
 		return randBytes(r, 1+r.Intn(max))
 	}
 	tx := &pb.Transaction{Version: ver, Desc: vl(20), Coinbase: r.Chance(1, 5), Nonce: string(vl(10)), Timestamp: randInt(r, 64),
